@@ -292,6 +292,7 @@ def f4(rep, w):
         f = w.require_fn(VM + nm, 'C09')
         org = origins(f)
         writes = []
+        takes = {}      # block of an Option::take on a link field -> local holding what was taken
         for bi in sorted(f.normal_blocks()):
             for s in f.blocks[bi]['s']:
                 d = s.get('d')
@@ -312,11 +313,54 @@ def f4(rep, w):
                     hit = toks & LINK_FIELDS
                     if hit:
                         writes.append((bi, sorted(hit)[0]))
+                        if n.endswith(('Option::take', 'mem::take')) and not t['dst'].get('p'):
+                            takes[bi] = t['dst']['l']
         errs = [bi for bi in f.normal_blocks() for s in f.blocks[bi]['s']
                 if s.get('d', {}).get('l') == 0 and s['r'].get('rv') == 'agg' and s['r'].get('v') == 'Err']
         if not errs:
             raise Broken('C09', 'anchor', '%s: no error return found' % nm)
-        bad = [(wb, fld, e) for (wb, fld) in writes for e in errs if e in f.reachable_blocks(wb) and e != wb]
+        def copies_of(l0):
+            out = {l0}
+            grew = True
+            while grew:
+                grew = False
+                for b_ in f.blocks:
+                    for s_ in b_['s']:
+                        d_ = s_.get('d') or {}
+                        rr_ = s_.get('r', {})
+                        src = op_place(rr_.get('o', {}) or {}) if rr_.get('rv') == 'use' else None
+                        if src is not None and not src.get('p') and src['l'] in out and not d_.get('p') and d_.get('l') not in out:
+                            out.add(d_['l'])
+                            grew = True
+            return out
+
+        def changed_after(wb):
+            """blocks in which the write at wb has changed something: all that follow it - but taking the content of a link that turns out to
+            be empty changes nothing, so for an Option::take only what follows the Some edge of a test of the taken value"""
+            after = f.reachable_blocks(wb)
+            if wb not in takes:
+                return after
+            some = set()
+            found = False
+            for b2 in after:
+                t2 = f.blocks[b2]['t']
+                if t2['t'] != 'switch' or op_place(t2['d']) is None:
+                    continue
+                dl = op_place(t2['d'])['l']
+                for s2 in f.blocks[b2]['s']:
+                    rr = s2.get('r', {})
+                    if (s2.get('d') or {}).get('l') == dl and rr.get('rv') == 'discr' and rr['p']['l'] in copies_of(takes[wb]):
+                        found = True
+                        vals = [v for v, _ in t2['cases']]
+                        for v, cb in t2['cases']:
+                            if v == 1:                       # Some
+                                some |= f.reachable_blocks(cb) | {cb}
+                        if 1 not in vals:
+                            if 0 not in vals:
+                                return after
+                            some |= f.reachable_blocks(t2['else']) | {t2['else']}      # cases: [None], otherwise: Some
+            return some if found else after
+        bad = [(wb, fld, e) for (wb, fld) in writes for e in errs if e in changed_after(wb) and e != wb]
         r.check(not bad, nm, 'a write to fiber link state (%s) can be followed by an error return: the reported error leaves a fiber pointing at '
                 'the wrong caller / frame' % sorted({b[1] for b in bad}), f.loc())
 
@@ -332,6 +376,19 @@ def f5(rep, w):
     fin = [bi for bi, t in f.calls() if callee_name(t) == 'yarel::object::ObjFiber::has_finished']
     link = [bi for bi, t in f.calls() if strip_generics(callee_name(t) or '') in ('std::option::Option::is_some', 'std::option::Option::is_none') and t['args'] and
             'caller' in operand_fields(f, org, t['args'][0])]
+    # ... or asked through a predicate of the fiber object that reads the link (`is_waiting()`)
+    def reads_link(g):
+        for b_ in g.blocks:
+            for s_ in b_['s']:
+                rr = s_.get('r', {})
+                for pl in [rr.get('p')] + [op_place(o) for o in [rr.get('o'), rr.get('a'), rr.get('b')] if isinstance(o, dict)]:
+                    if pl and any(isinstance(e, dict) and e.get('n') == 'caller' for e in pl.get('p', [])):
+                        return True
+        return False
+    for bi, t in f.calls():
+        g = w.fns.get(callee_name(t) or '')
+        if g is not None and g.path.startswith('yarel::object::ObjFiber::') and g.path != 'yarel::object::ObjFiber::has_finished' and g.argc == 1 and reads_link(g):
+            link.append(bi)
     if not fin or not link:
         raise Broken('C09', 'anchor', 'load_fiber: has_finished / caller tests not found')
     r.check(all(any(h in dom.get(l_, ()) for h in fin) for l_ in link), 'load_fiber: has_finished() is tested before the caller link',
